@@ -5,12 +5,20 @@
  *
  * output (every line ends with inv=<0|1>; the fields after the kind up to the first result field are the inputs,
  * so an output line fed back on stdin replays its case):
- *   T tok  <in> <rc> <ntok> <buflen> <naddr> <unparse-len>                        token822.c
+ *   T tok  <in> <rc> <ntok> <buflen> <naddr> <unparse-len> p=<ta.a>,<buf.a>,<nstored> u=<a,len x4> q=<a,len x2>   token822.c
+ *          p: sizes of the two fresh blocks (= pass 1's numtoks / numchars) and the number of token records pass 2
+ *          really wrote (valid type; ASan fills a fresh block with 0xbe); u: stralloc a (= the length the first walk of
+ *          token822_unparse computed) and final len for linelen 0, 72, 1 and for the reversed array with 72;
+ *          q: the same for token822_unquote on the array and on the reversed array.  "-" when rc != 1.
+ *   T utok <spec> <linelen> <ua> <ulen> <qa> <qlen>       token822_unparse/unquote on a hand-made token array:
+ *          spec = sequence of (type byte, length byte, bytes); types 0..255 (also outside TOKEN822_*)
  *   T cdb  <file> <key> <r> <dlen> <data>                                         cdb_seek.c
  *   T ctl  <file> <rlrc> <line> <rirc> <int> <rfrc> <nlines> <rflen> <cmrc> <cmhits>   control.c constmap.c getln
  *   T ip   <str> <r1> <ip1> <r2> <ip2>                                            ip.c
  *   T hdr  <in> <rc> <nfields> <nbody> <maxfieldlen>                              headerbody.c hfield.c
  *   T gl   <stream> <chunk> <bufsz> <sep> <nlines> <total> <lastmatch>            getln.c getln2.c substdi.c
+ *   T gl2  <stream> <chunk> <bufsz> <sep> <calls>      getln2.c called directly until end of stream; <calls> = ';'-separated
+ *          <ret>,<cont - ss.x>,<clen>,<sa.len>,<sa.a>,<ss.p>,<ss.n> per call ("-" for cont when clen = 0)
  *   T scan <str> <r> <val>                                                        scan_ulong scan_8long fmt_ulong
  *   X <kind> <inputs as in the T line> <sanitizer|timeout>      printed by the sanitizer death callback / SIGALRM;
  *        kind "init" (input "-") = crash in control_init at start-up, "gen" = crash outside any case
@@ -146,21 +154,53 @@ static void case_tok(const unsigned char *in, size_t n) {
   t_inv = 1; t_naddr = 0; t_uplen = 0;
   int rc = token822_parse(&t_a, &t_in, &t_buf);
   unsigned ntok = 0; unsigned long used = 0;
+  char ext[400]; strcpy(ext, "p=- u=- q=-");
   if (rc == 1) {
     ntok = t_a.len;
     tok_toks(&t_a);
+    unsigned nstored = 0;
+    for (unsigned i = 0; i < t_a.len; i++) if (t_a.t[i].type >= 1 && t_a.t[i].type <= 11) nstored++;
     for (unsigned i = 0; i < t_a.len; i++) if (t_a.t[i].type >= 1 && t_a.t[i].type <= 4) used += t_a.t[i].slen;
     /* the blocks are fresh, so their sizes are pass 1's counts: pass 2 must have used exactly that much */
     if (used != t_buf.a || t_a.len != t_a.a || t_buf.len > t_buf.a) t_inv = 0;
-    tok_unparse(&t_a, 0); tok_unparse(&t_a, 72); tok_unquote(&t_a);
-    token822_reverse(&t_a); tok_unparse(&t_a, 72); tok_unquote(&t_a); token822_reverse(&t_a);   /* dorecip()'s order */
+    unsigned ua[4], ul[4], qa[2], ql[2];
+    ul[0] = tok_unparse(&t_a, 0); ua[0] = t_out.a; ul[1] = tok_unparse(&t_a, 72); ua[1] = t_out.a;
+    ul[2] = tok_unparse(&t_a, 1); ua[2] = t_out.a; tok_unquote(&t_a); qa[0] = t_uq.a; ql[0] = t_uq.len;
+    token822_reverse(&t_a); ul[3] = tok_unparse(&t_a, 72); ua[3] = t_out.a; tok_unquote(&t_a); qa[1] = t_uq.a; ql[1] = t_uq.len;
+    token822_reverse(&t_a);   /* dorecip()'s order */
+    snprintf(ext, sizeof ext, "p=%u,%u,%u u=%u,%u,%u,%u,%u,%u,%u,%u q=%u,%u,%u,%u", t_a.a, t_buf.a, nstored,
+             ua[0], ul[0], ua[1], ul[1], ua[2], ul[2], ua[3], ul[3], qa[0], ql[0], qa[1], ql[1]);
     int arc = token822_addrlist(&t_r, &t_addr, &t_a, tok_cb);                             /* doheaderfield()'s call */
     if (arc == 1) { tok_toks(&t_r); tok_unparse(&t_r, 80); tok_unparse(&t_r, 0); tok_unparse(&t_r, 1); tok_unquote(&t_r); }
     else if (arc != 0) t_inv = 0;
   } else if (rc != 0) t_inv = 0;
   fputs("T ", h_out); cur_print();
-  fprintf(h_out, " %d %u %lu %d %ld", rc, ntok, used, t_naddr, t_uplen);
+  fprintf(h_out, " %d %u %lu %d %ld %s", rc, ntok, used, t_naddr, t_uplen, ext);
   endline(t_inv);
+  xfree(x, n);
+}
+
+/* token822_unparse / token822_unquote on a hand-made array: every token's bytes in a block of exactly its size */
+static void case_utok(const unsigned char *spec, size_t n, unsigned linelen) {
+  unsigned char *x = xdup(spec, n, 0);
+  cur_set("utok", x, n); cur.nx = 1; cur.x[0] = linelen;
+  unsigned cnt = 0;
+  for (size_t p = 0; p + 2 <= n; p += 2 + x[p + 1]) { if (p + 2 + x[p + 1] > n) break; cnt++; }
+  struct token822 *arr = cnt ? malloc(cnt * sizeof *arr) : (struct token822 *)((char *)malloc(8) + 8);
+  unsigned k = 0;
+  for (size_t p = 0; p + 2 <= n && k < cnt; p += 2 + x[p + 1]) {
+    arr[k].type = x[p]; arr[k].slen = x[p + 1]; arr[k].s = (char *)xdup(x + p + 2, x[p + 1], 0); k++;
+  }
+  token822_alloc ta; ta.t = arr; ta.len = cnt; ta.a = cnt;
+  t_inv = 1;
+  long ul = tok_unparse(&ta, linelen); unsigned ua = t_out.a;
+  tok_unquote(&ta);
+  if (ul < 1 || ul >= (long)ua) t_inv = 0;
+  fputs("T ", h_out); cur_print();
+  fprintf(h_out, " %u %ld %u %u", ua, ul, t_uq.a, t_uq.len);
+  endline(t_inv);
+  for (k = 0; k < cnt; k++) xfree(arr[k].s, arr[k].slen);
+  if (cnt) free(arr); else free((char *)arr - 8);
   xfree(x, n);
 }
 
@@ -547,9 +587,39 @@ static void case_gl(const unsigned char *st, size_t n, int chunk, int bufsz, int
   endline(inv);
   free(sa.s); free(sb); xfree(x, n);
 }
+/* getln2() itself: where do *cont / *clen point, how does the line buffer grow */
+static void case_gl2(const unsigned char *st, size_t n, int chunk, int bufsz, int sep) {
+  unsigned char *x = xdup(st, n, 0);
+  cur_set("gl2", x, n); cur.nx = 3; cur.x[0] = chunk; cur.x[1] = bufsz; cur.x[2] = sep;
+  char *sb = malloc(bufsz); substdio ss; stralloc sa = {0};
+  rd_p = x; rd_n = n; rd_pos = 0; rd_chunk = chunk;
+  substdio_fdbuf(&ss, rd_op, -1, sb, bufsz);
+  int inv = 1; size_t total = 0;
+  static hbuf ob; char tmp[160]; hbuf_reset(&ob);      /* printed after the run: a sanitizer abort must find a clean line start */
+  for (size_t it = 0; it <= n + 1; it++) {
+    char *cont = 0; unsigned int clen = 0;
+    int r = getln2(&ss, &sa, &cont, &clen, sep);
+    if (it) hbuf_add(&ob, ";", 1);
+    if (r == 0 && clen) {
+      /* the slice must lie inside the substdio buffer and hold the next bytes of the stream, ending in the separator */
+      if (!within(cont, clen, sb, bufsz)) inv = 0;
+      else if (total + sa.len + clen > n || memcmp(x + total + sa.len, cont, clen) || (unsigned char)cont[clen - 1] != (unsigned char)sep) inv = 0;
+      snprintf(tmp, sizeof tmp, "%d,%ld,%u,%u,%u,%d,%d", r, (long)(cont - sb), clen, sa.len, sa.a, ss.p, ss.n);
+    } else snprintf(tmp, sizeof tmp, "%d,-,%u,%u,%u,%d,%d", r, clen, sa.len, sa.a, ss.p, ss.n);
+    hbuf_add(&ob, tmp, strlen(tmp));
+    if (sa.len > sa.a || (sa.len && memcmp(x + total, sa.s, sa.len))) inv = 0;
+    if (r != 0) { inv = 0; break; }
+    total += sa.len + clen;
+    if (!clen) break;
+  }
+  if (total != n) inv = 0;
+  fputs("T ", h_out); cur_print(); fputc(' ', h_out); fwrite(ob.p, 1, ob.n, h_out);
+  endline(inv);
+  free(sa.s); free(sb); xfree(x, n);
+}
 static void gl_enum_cb(const unsigned char *s, size_t n) {
   static const int bs[4] = { 1, 2, 3, 16 };
-  for (int c = 0; c < 4; c++) for (int b = 0; b < 4; b++) { case_gl(s, n, c, bs[b], '\n'); if (b == 0 || b == 3) case_gl(s, n, c, bs[b], 0); }
+  for (int c = 0; c < 4; c++) for (int b = 0; b < 4; b++) { case_gl(s, n, c, bs[b], '\n'); if (b == 0 || b == 3) case_gl(s, n, c, bs[b], 0); if (n <= 6 || b == 1) case_gl2(s, n, c, bs[b], '\n'); }
 }
 static void gl_cases(void) {
   static const int ll[] = { 8191, 8192, 8193, 100000 }, ch[] = { 0, 1, 3, 8192, 8191 }, bs[] = { 8192, 16, 1 };
@@ -566,6 +636,7 @@ static void gl_cases(void) {
     if (!take()) continue;
     hbuf_reset(&g); Gc('a', l); if (v) { G("\n"); Gc('b', l / 2); }
     case_gl(g.p, g.n, sc[c], sb[b], '\n');
+    case_gl2(g.p, g.n, sc[c], sb[b], '\n');
   }
 }
 
@@ -629,8 +700,46 @@ static void tok_cases(void) {
   static const char *ctx[] = { "%c", "a%cb@c", "\"%c\"", "(%c)", "[%c]", "T:a@%c,b", "\\%c", "\"\\%c\"", "%c%c%c", "<%c>" };
   for (unsigned o = 0; o < sizeof odd; o++) for (unsigned c = 0; c < sizeof ctx / sizeof ctx[0]; c++)
     for (const char *q = ctx[c]; ; q++) { if (!*q) { TOK(); break; } if (*q == '%') { Gc(odd[o], 1); q++; } else Gc(*q, 1); }
+  for (int b = 0; b < 256; b++) for (unsigned c = 0; c < sizeof ctx / sizeof ctx[0]; c++)      /* every byte value in every context */
+    for (const char *q = ctx[c]; ; q++) { if (!*q) { TOK(); break; } if (*q == '%') { Gc(b, 1); q++; } else Gc(*q, 1); }
   enum_strings((const unsigned char *)talpha, 16, 0, g_level >= 2 ? 5 : 4, case_tok);
   enum_strings((const unsigned char *)talpha, 12, g_level >= 2 ? 6 : 5, g_level >= 2 ? 6 : 5, case_tok);
+}
+#define UTOK(ll) do { if (take()) case_utok(g.p, g.n, ll); } while (0)
+static void utok_shape(int k) {     /* 29 token shapes: 4 word types x 4 contents, 9 other types (0, 5..11, 12) , one long atom */
+  static const char *cont[4] = { "", "a", "\"", "b\n(" };
+  unsigned char h[2];
+  if (k < 16) { h[0] = 1 + k / 4; h[1] = strlen(cont[k % 4]); Gb(h, 2); G(cont[k % 4]); }
+  else if (k < 28) { static const unsigned char ty[12] = { 0, 5, 6, 7, 8, 9, 10, 11, 12, 8, 8, 255 }; h[0] = ty[k - 16]; h[1] = k == 27 ? 1 : 0; Gb(h, 2); if (k == 27) G("z"); }
+  else { h[0] = 1; h[1] = 40; Gb(h, 2); Gc('x', 40); }
+}
+static void utok_cases(void) {
+  static const unsigned lls[] = { 0, 1, 4, 9, 72 };
+  int top = g_level >= 2 ? 29 : 21;
+  hbuf_reset(&g); UTOK(0); UTOK(72);
+  for (int a = 0; a < 29; a++) for (unsigned l = 0; l < 5; l++) { hbuf_reset(&g); utok_shape(a); UTOK(lls[l]); }
+  for (int a = 0; a < 29; a++) for (int b = 0; b < 29; b++) for (unsigned l = 0; l < 5; l++) { hbuf_reset(&g); utok_shape(a); utok_shape(b); UTOK(lls[l]); }
+  for (int a = 0; a < top; a++) for (int b = 0; b < top; b++) for (int c = 0; c < top; c++) for (unsigned l = 0; l < 3; l++) {
+    hbuf_reset(&g); utok_shape(a); utok_shape(b); utok_shape(c); UTOK(lls[l * 2]);
+  }
+  /* long lists: every fold decision of NSUW for line lengths around the item width */
+  for (int n = 1; n <= 40; n++) for (unsigned ll = 0; ll <= 14; ll++) for (int v = 0; v < 3; v++) {
+    hbuf_reset(&g);
+    for (int i = 0; i < n; i++) { utok_shape(v == 0 ? 1 : v == 1 ? (i % 3 ? 1 : 28) : 6 + (i * 7) % 22); utok_shape(20); }
+    UTOK(ll);
+  }
+  hbuf_reset(&g);
+}
+static void utok_random(void) {
+  int n = h_below(4) ? (int)h_below(12) : (int)h_below(300);
+  hbuf_reset(&g);
+  for (int i = 0; i < n; i++) {
+    if (h_below(3)) utok_shape((int)h_below(29));
+    else { unsigned char h[2]; h[0] = h_below(10) ? 1 + h_below(12) : h_below(256); h[1] = h_below(8) ? h_below(6) : h_below(256); Gb(h, 2);
+           for (int j = 0; j < h[1]; j++) Gc(h_below(3) ? "\"[]()\\\r\n"[h_below(8)] : (int)h_below(256), 1); }
+  }
+  case_utok(g.p, g.n, h_below(3) ? (unsigned)h_below(100) : h_below(2) ? 0 : 0xffffffffu);
+  hbuf_reset(&g);
 }
 static void tok_random(void) {
   static const char *addr[] = { "a@b", "<a@b>", "n <a@b>", "g: a@b, c@d;", "\"q\"@d", "(c) a@b", "<@r:a@b>", "a.b@c.d", "\"x y\" <\"q\\\"\"@[1.2.3.4]>",
@@ -671,7 +780,7 @@ static void scan_cases(void) {
 }
 static void random_case(int r) {
   switch (r % 7) {
-    case 0: tok_random(); break;
+    case 0: if (h_below(3)) tok_random(); else utok_random(); break;
     case 1: cdb_random(); break;
     case 2: ctl_random(); break;
     case 3: { size_t n = h_below(4) ? h_below(24) : h_below(60); hbuf_reset(&g);
@@ -682,7 +791,8 @@ static void random_case(int r) {
             case_hdr(g.p, g.n); break;
     case 5: { size_t n = h_below(16) ? h_below(300) : h_below(20000); int dense = h_below(3); hbuf_reset(&g);
               for (size_t i = 0; i < n; i++) Gc(h_below(dense ? 6 : 400) ? (h_below(9) ? 'a' : 0) : '\n', 1);
-              case_gl(g.p, g.n, (int[]){0, 1, 2, 3, 7, 64, 8192, 5000}[h_below(8)], (int[]){1, 2, 3, 16, 8192, 64, 5}[h_below(7)], h_below(4) ? '\n' : 0); break; }
+              int ch = (int[]){0, 1, 2, 3, 7, 64, 8192, 5000}[h_below(8)], bz = (int[]){1, 2, 3, 16, 8192, 64, 5}[h_below(7)], sp = h_below(4) ? '\n' : 0;
+              if (h_below(2)) case_gl(g.p, g.n, ch, bz, sp); else case_gl2(g.p, g.n, ch, bz, sp); break; }
     default: { size_t n = h_below(30); hbuf_reset(&g); if (h_below(2)) G((const char *[]){"1844674407370955", "429496729", "922337203685477580", "1777777777777777777"}[h_below(4)]);
                for (size_t i = 0; i < n; i++) Gc(h_below(40) ? '0' + (int)h_below(10) : (int)h_below(256), 1);
                case_scan(g.p, g.n); }
@@ -706,11 +816,13 @@ static void stdin_cases(void) {
     unsigned char *a, *b = 0; size_t an = unhex(f[1], &a), bn = 0;
     alarm(300);
     if (!strcmp(f[0], "tok")) case_tok(a, an);
+    else if (!strcmp(f[0], "utok")) case_utok(a, an, nf > 2 ? (unsigned)strtoul(f[2], 0, 10) : 0);
     else if (!strcmp(f[0], "cdb")) { bn = nf > 2 ? unhex(f[2], &b) : 0; case_cdb(a, an, b ? b : a, bn); }
     else if (!strcmp(f[0], "ctl")) case_ctl(a, an);
     else if (!strcmp(f[0], "ip")) case_ip(a, an);
     else if (!strcmp(f[0], "hdr")) case_hdr(a, an);
     else if (!strcmp(f[0], "gl")) { int bz = nf > 3 ? atoi(f[3]) : 8192; case_gl(a, an, nf > 2 ? atoi(f[2]) : 0, bz > 0 ? bz : 1, nf > 4 ? atoi(f[4]) : '\n'); }
+    else if (!strcmp(f[0], "gl2")) { int bz = nf > 3 ? atoi(f[3]) : 8192; case_gl2(a, an, nf > 2 ? atoi(f[2]) : 0, bz > 0 ? bz : 1, nf > 4 ? atoi(f[4]) : '\n'); }
     else if (!strcmp(f[0], "scan")) case_scan(a, an);
     free(a); free(b);
   }
@@ -741,7 +853,7 @@ int main(int argc, char **argv) {
     uint64_t seed = (uint64_t)h_argi(argc, argv, 4, 1);
     g_shard = h_argi(argc, argv, 5, 0); g_nshards = h_argi(argc, argv, 6, 1);
     if (g_nshards < 1) g_nshards = 1;
-    tok_cases(); cdb_cases(); ctl_cases(); ip_cases(); hdr_cases(); gl_cases();
+    tok_cases(); utok_cases(); cdb_cases(); ctl_cases(); ip_cases(); hdr_cases(); gl_cases();
     enum_strings((const unsigned char *)"a\n\0", 3, 0, g_level >= 2 ? 10 : 8, gl_enum_cb);
     scan_cases();
     h_seed(seed * 1000003ull + g_shard);
